@@ -37,6 +37,7 @@ COMPOUND FORMAT (72 bundled bodies, all `{__COMPOUND_PART1__{ ... }__COMPOUND_PA
       flat(inside part2) == flat(POST)        (the cut is where the second marker was).
 """
 
+import re
 import functools
 
 MARK = "__COMPOUND_PART1__"
@@ -114,7 +115,20 @@ def is_blank(line):
 # brackets, blocks, statements
 
 
+_LIT = re.compile(r'"(?:[^"\\\n]|\\.)*"|\'(?:[^\'\\\n]|\\.)*\'')
+
+
+@functools.lru_cache(maxsize=65536)
+def mask_literals(text):
+    """String and character literals are single tokens of the dialect: brackets and semicolons inside them are not
+    structure.  Their contents are replaced by filler of the same length (positions stay valid)."""
+    if '"' not in text and "'" not in text:
+        return text
+    return _LIT.sub(lambda m: m.group(0)[0] + "_" * (len(m.group(0)) - 2) + m.group(0)[-1], text)
+
+
 def balanced(text):
+    text = mask_literals(text)
     st = []
     for c in text:
         if c in OPENERS:
@@ -129,6 +143,7 @@ def is_block(text):
     """text is exactly one bracket-balanced block: '{' ... matching '}' at the very end."""
     if len(text) < 2 or text[0] != "{" or text[-1] != "}":
         return False
+    text = mask_literals(text)
     st = []
     last = len(text) - 1
     for i, c in enumerate(text):
@@ -147,7 +162,7 @@ def top_statements(text):
     out = []
     depth = 0
     start = 0
-    for i, c in enumerate(text):
+    for i, c in enumerate(mask_literals(text)):
         if c in OPENERS:
             depth += 1
         elif c in CLOSERS:
@@ -477,7 +492,7 @@ def short_bodies(maxlen):
     return list(bodies_from((), (), maxlen))
 
 
-STATEMENTS = ("a;", "if (c) {b;}", "f(x, y);", "{d;}", ";")
+STATEMENTS = ("a;", "if (c) {b;}", "f(x, y);", "{d;}", ";", 'w("{%d");')
 
 
 def zone_sequences(k, maxn):
